@@ -1070,6 +1070,22 @@ func (f *Flow) ReachRefined2(from Pt, obj types.Object, wantNil bool, isBool boo
 								}
 							}
 						}
+						if be, isBE := ast.Unparen(fact.E).(*ast.BinaryExpr); isBE && (be.Op == token.EQL || be.Op == token.NEQ) {
+							x, y := ast.Unparen(be.X), ast.Unparen(be.Y)
+							if isNilIdent(f.Info, x) {
+								x, y = y, x
+							}
+							if id, isID := x.(*ast.Ident); isID && isNilIdent(f.Info, y) {
+								if v, isVar := f.Info.Uses[id].(*types.Var); isVar && isErrorType(v.Type()) {
+									if nonNil, known := flagVal(it.flags, v); known {
+										atomSaysNil := (be.Op == token.EQL) == fact.T
+										if atomSaysNil == nonNil {
+											skip[si] = true
+										}
+									}
+								}
+							}
+						}
 					}
 				}
 			}
@@ -1190,7 +1206,21 @@ func (f *Flow) ReachRefined2(from Pt, obj types.Object, wantNil bool, isBool boo
 				continue
 			}
 			v, isVar := objOf(f.Info, id).(*types.Var)
-			if !isVar || v.IsField() || !isBoolType(v.Type()) {
+			if !isVar || v.IsField() {
+				continue
+			}
+			if isErrorType(v.Type()) {
+				// an error variable assigned nil / an error literal: "T" stands for non-nil
+				if len(as.Lhs) == len(as.Rhs) && isNilIdent(f.Info, as.Rhs[i]) {
+					flags = flagSet(flags, v, false, true)
+				} else if len(as.Lhs) == len(as.Rhs) && nonNilErrExpr(f.Info, as.Rhs[i]) {
+					flags = flagSet(flags, v, true, true)
+				} else {
+					flags = flagSet(flags, v, false, false)
+				}
+				continue
+			}
+			if !isBoolType(v.Type()) {
 				continue
 			}
 			if len(as.Lhs) == len(as.Rhs) {
